@@ -196,6 +196,27 @@ Proof. exact TokRound4Ex.core4_full_refuted. Qed.
 Theorem C02_core4_nonvacuous : TokRound4.core4_doc TokRound4Ex.ex4 = true /\ TokRound4Ex.rt4 TokRound4Ex.ex4 [7%N; 7%N; 7%N].
 Proof. exact (conj TokRound4Ex.ex4_core TokRound4Ex.ex4_roundtrip). Qed.
 
+(* TEXT LEVEL for core4 (nested lists at any depth, inline-map items, in assignments and META): lexer half Rt/LexLink4*.v
+   + parser half Rt/TokRound4.v.  The warnings are of the classes {5,6,7,9} only (7: the emitter's always-quoted PATTERN /
+   REGEX map values are reported as constructor_misuse; 6: lists opened at bracket depth >= 5). *)
+From OV Require Rt.LexLink4Text Rt.LexLink4 Rt.LexLink4Ex.
+Theorem C02_text_roundtrip_core4 :
+  forall cls numcanon holo_ok strict sp d,
+    TokRound4.core4_doc d = true -> LexLink4.lex_safe4_doc d = true ->
+    TokRound4.nums_ok4_l numcanon TokRound2Ex.ex_idnum (dsections d) ->
+    Forall (TokRound4.field_num_ok4 numcanon TokRound2Ex.ex_idnum) (dmeta d) ->
+    exists warns, parse_model cls numcanon holo_ok strict (lines_of (emit sp d)) = PRDoc d [] warns /\ Forall TokRound4.advisory4 warns.
+Proof. exact LexLink4.text_roundtrip_core4. Qed.
+(* the executable shape check the harness runs succeeds on the whole domain *)
+Theorem C02_shape_check_core4_complete :
+  forall cls sp d, TokRound4.core4_doc d = true -> LexLink4.lex_safe4_doc d = true ->
+    TokRound4Ex.core4_shape_check cls d (lines_of (emit sp d)) = 1%N.
+Proof. exact LexLink4.shape_check_core4. Qed.
+Theorem C02_lex_emit_core4_full_refuted : ~ LexLink4Ex.lex_emit_core4_full.
+Proof. exact LexLink4Ex.lex_emit_core4_full_refuted. Qed.
+Theorem C02_text_roundtrip_core4_nonvacuous : TokRound4.core4_doc TokRound4Ex.ex4 = true /\ LexLink4.lex_safe4_doc TokRound4Ex.ex4 = true.
+Proof. exact (conj TokRound4Ex.ex4_core LexLink4Ex.ex4_safe). Qed.
+
 (* ---- source-text pins (generated by harness/pinsets.py) ---- *)
 (* every function of these modules is, text for text (comments and docstrings excluded), the one the models of this
    property were written against and validated against: harness/translate/srcdigest_t.py, Src/Pin_*.v *)
